@@ -1,5 +1,6 @@
 #!/bin/bash
 # tools/try_patch.sh <patch.diff> <tier> <prop>...   apply a seeded change to /repo, run checks, undo it.
+export VERIF_EVIDENCE_DIR=${VERIF_EVIDENCE_DIR:-/tmp/verif-evidence-patched}
 P=$(readlink -f "$1"); TIER=$2; shift 2
 cd /verif
 git -C /repo diff --quiet || { echo "/repo has uncommitted changes"; exit 2; }
